@@ -82,19 +82,18 @@ func repeat(fm *Frame, n int, v any) error {
 }
 
 func readBytes(fm *Frame, max int) (string, error) {
-	in := fm.InputFile()
-	buf := make([]byte, max)
-	read := 0
-	for read < max {
-		n, err := in.Read(buf[read:])
-		read += n
-		if err == io.EOF {
-			break
-		} else if err != nil {
-			return "", err
-		}
+	if max < 0 {
+		return "", errs.BadValue{What: "max", Valid: "non-negative number", Actual: strconv.Itoa(max)}
 	}
-	return string(buf[:read]), nil
+	in := fm.InputFile()
+	// Read incrementally rather than into a buffer of max bytes: max comes
+	// from the program and may be far larger than what can be allocated.
+	var buf strings.Builder
+	_, err := io.CopyN(&buf, in, int64(max))
+	if err != nil && err != io.EOF {
+		return "", err
+	}
+	return buf.String(), nil
 }
 
 func readUpto(fm *Frame, terminator string) (string, error) {
